@@ -52,13 +52,26 @@ def run(tier, seed):
         mc = conn.model_check(wd)
         mc2 = core.tlc("MC_CredSSP", wd=wd, workers=4, coverage=True, timeout=300)
         core.require_clean_mc(mc2, "MC_CredSSP", ("SendCredentials",))
-        _, cplans = conn.gen_plans(wd, 60 if tier == "quick" else 4000, [0], seed)
+        _, cplans = conn.gen_plans(wd, 60 if tier == "quick" else 12000, [0], seed)
         plans = list(conn.last_mode_plans) + cplans
         if len(conn.last_mode_plans) < 200:
             raise core.ToolError("Gen_Rdp produced only %d mode plans" % len(conn.last_mode_plans))
         st = json.loads(json.dumps([p for p in conn.last_mode_plans if p["cfg"]["nla"] and not p["cfg"]["admin"] and not p["cfg"]["blank"] and not p["cfg"]["hash"] and p["srv"]["reply"]["sel"][0] == 2][0]))
         st["id"] = "selftest"
         plans.append(st)
+        # a server that answers the TLS / NLA request by selecting plain RDP security (or a protocol that was not offered):
+        # the client must stop there - continuing would put the Client Info PDU, password included, on the clear transport
+        k = 0
+        for p in conn.last_mode_plans:
+            c = p["cfg"]
+            if c["admin"] or c["blank"] or c["hash"] or k >= 12:
+                continue
+            for sel in ([0, 0, 0, 0], [8, 0, 0, 0]) + (([2, 0, 0, 0],) if not c["nla"] else ()):
+                q = json.loads(json.dumps(p))
+                q["id"] = "downgrade%d" % k
+                q["srv"]["reply"]["sel"] = sel
+                q["srv"]["mode"] = "nego"
+                plans.append(q); k += 1
         trace, blobs, decoded, dec = conn.run_plans(wd, plans, "c17")
         accepted, rejects = core.tv_all("Trace_Rdp", trace, decoded, wd, shards=8, max_rejects=6, overrides=True, extra_env={"BLOBS": blobs}, cfg="Trace_Rdp_secrets.cfg")
         byid = {p["id"]: p for p in plans}
